@@ -24,7 +24,7 @@ def preF64 (k : Nat) : Nat := (Float.floor (3.32192809488736234787 * k.toFloat))
 /-- `highest_bit_lessthan_scaled` -/
 def highestBitLess (pre : Nat → Nat) (a b k : Nat) : Bool :=
   if bits a < bits b then true
-  else if bits b + pre k < 2 ^ 64 then decide (bits a < bits b + pre k) else true
+  else if bits b + (pre k - highestBitPreSub) < 2 ^ 64 then decide (bits a < bits b + (pre k - highestBitPreSub)) else true
 
 /-- outcome of the u32-limb loop of `check_equality_bigdecimal_ref` -/
 inductive LimbLoop | decided (b : Bool) | overflow
